@@ -116,3 +116,84 @@ M.lemma("both_ends_see_the_same_pairs", vars=dict(rules=Rules, a=STR, b=STR, sho
         goal="memp(x, ld_n([b], rules, a, short)) == memp(flip(x), ld_n([a], rules, b, short))",
         instances=[("both_ends_see_the_same_pairs_per_rule_list", dict(rules="rules", a="a", an="nh(short, a)", b="b", bn="nh(short, b)", x="x"))],
         use=["memp_app"], properties=["C15"])
+
+
+# ==================================================================================================================
+# lookup_indirect: the same scheme over indirect_rules (pairs carry no port processor)
+IRule = U.record("IRule", dict(matcher=Matcher, handler=Handler))
+IRules = SeqT(IRule)
+IRegL = U.list("IRegL", "IReg")
+IReg = U.record("IReg", dict(indirect_rules=IRules, nested=IRegL, match_short_name=BOOL))
+IPair = U.record("IPair", dict(handler=Handler, direct_order=BOOL, name_left=STR, name_right=STR, match_left=MArg, match_right=MArg))
+IPairs = SeqT(IPair)
+
+
+def _mk_ipair(ex, args, kwargs, st, node):
+    return V(IPair, IPair.mk(**{k: coerce(kwargs[k], IPair.fields[k]).t for k in IPair.fields}))
+
+
+M.export(MatchedIndirectPair=PyFn("MatchedIndirectPair", _mk_ipair))
+
+
+@M.spec
+def ipairs_for(rules: IRules, dev: STR, dn: STR, nb: STR, nn: STR) -> IPairs:
+    if not rules:
+        return []
+    r = rules[0]
+    a = mp(r["matcher"], dn, nn)
+    b = mp(r["matcher"], nn, dn)
+    pa = [{"handler": r["handler"], "direct_order": True, "name_left": dev, "name_right": nb, "match_left": a[0], "match_right": a[1]}] if a else []
+    pb = [{"handler": r["handler"], "direct_order": False, "name_left": nb, "name_right": dev, "match_left": b[0], "match_right": b[1]}] if b else []
+    return pa + pb + ipairs_for(rules[1:], dev, dn, nb, nn)
+
+
+@M.spec
+def li_n(nbs: SEQS, rules: IRules, dev: STR, short: BOOL) -> IPairs:
+    return [] if not nbs else ipairs_for(rules, dev, nh(short, dev), nbs[0], nh(short, nbs[0])) + li_n(nbs[1:], rules, dev, short)
+
+
+@M.spec
+def li_nested(regs: IRegL, dev: STR, nbs: SEQS) -> IPairs:
+    return [] if not regs else li(regs[0], dev, nbs) + li_nested(regs[1:], dev, nbs)
+
+
+@M.spec
+def li(reg: IReg, dev: STR, nbs: SEQS) -> IPairs:
+    return li_n(nbs, reg["indirect_rules"], dev, reg["match_short_name"]) + li_nested(reg["nested"], dev, nbs)
+
+
+@M.spec
+def imemp(x: IPair, xs: IPairs) -> BOOL:
+    return False if not xs else (xs[0] == x or imemp(x, xs[1:]))
+
+
+@M.spec
+def iflip(x: IPair) -> IPair:
+    return {"handler": x["handler"], "direct_order": not x["direct_order"], "name_left": x["name_left"], "name_right": x["name_right"],
+            "match_left": x["match_left"], "match_right": x["match_right"]}
+
+
+M.contract(F, "IView._normalize_host", params=dict(self=IReg, host=STR), ret=STR, trusted=True,
+           ensures=["result == nh(self.match_short_name, host)"], note="the same method seen from the indirect view of the registry",
+           properties=["C15"])
+M.contract(F, "MeshRulesRegistry.lookup_indirect", params=dict(self=IReg, device=STR, devices=SEQS), ret=IPairs,
+           locals=dict(found=IPairs, args=OptArgs),
+           ensures=["result == li(self, device, devices)"],
+           loops={1: dict(match="devices",
+                          inv=["found + li_n(_rest1, self.indirect_rules, device, self.match_short_name) == "
+                               "li_n(devices, self.indirect_rules, device, self.match_short_name)"]),
+                  2: dict(match="self.indirect_rules",
+                          inv=["found + ipairs_for(_rest2, device, device_norm, other_device, other_device_norm) == "
+                               "entry(found) + ipairs_for(self.indirect_rules, device, device_norm, other_device, other_device_norm)"]),
+                  3: dict(match="self.nested",
+                          inv=["found + li_nested(_rest3, device, devices) == li(self, device, devices)"])},
+           canaries=["len(result) == 0"], properties=["C15"], note="relative to PairMatcher.match_pair and _normalize_host (opaque)")
+_q = {c.qual: c for c in M.contracts}
+_q["MeshRulesRegistry.lookup_indirect"].calls["self._normalize_host"] = _q["IView._normalize_host"]
+_q["MeshRulesRegistry.lookup_indirect"].calls["registry.lookup_indirect"] = _q["MeshRulesRegistry.lookup_indirect"]
+
+M.lemma("imemp_app", vars=dict(x=IPair, u=IPairs, v=IPairs), hyps=[], goal="imemp(x, u + v) == (imemp(x, u) or imemp(x, v))", induct="u",
+        properties=["C15"])
+M.lemma("both_ends_see_the_same_indirect_pairs_per_rule_list", vars=dict(rules=IRules, a=STR, an=STR, b=STR, bn=STR, x=IPair), hyps=[],
+        goal="imemp(x, ipairs_for(rules, a, an, b, bn)) == imemp(iflip(x), ipairs_for(rules, b, bn, a, an))", induct="rules",
+        use=["imemp_app"], properties=["C15"])
